@@ -35,6 +35,8 @@ struct Tab {
 }
 
 struct World<'a> {
+    /// (table, index name, columns) of the index dropped last
+    last_dropped_index: Option<(String, String, Vec<String>)>,
     db: Dbh,
     model: &'a mut Model,
     tabs: Vec<Tab>,
@@ -352,8 +354,21 @@ impl<'a> World<'a> {
 
     fn drop_index(&mut self, rep: &mut Report, ti: usize) {
         if self.tabs[ti].indexes.is_empty() { return; }
-        let (iname, _) = self.tabs[ti].indexes.remove(0);
-        self.step(rep, "drop_index", &format!("DROP INDEX {iname}"), &format!("ddl (dropindex {iname})"));
+        let (iname, cols) = self.tabs[ti].indexes.remove(0);
+        if self.step(rep, "drop_index", &format!("DROP INDEX {iname}"), &format!("ddl (dropindex {iname})")) {
+            self.last_dropped_index = Some((self.tabs[ti].name.clone(), iname, cols));
+        }
+    }
+
+    /// CREATE INDEX with the name (and column) of the index dropped last, in the same session
+    fn create_index_again(&mut self, rep: &mut Report) {
+        let Some((tname, iname, cols)) = self.last_dropped_index.take() else { return };
+        let Some(ti) = self.tabs.iter().position(|t| t.name == tname) else { return };
+        let Some(ci) = self.tabs[ti].cols.iter().position(|c| c.name == cols[0]) else { return };
+        if self.tabs[ti].short_rows { return; }
+        let sql = format!("CREATE INDEX {iname} ON {tname} ({})", cols[0]);
+        let ml = format!("ddl (createindex {iname} {tname} 0 ({ci}))");
+        if self.step(rep, "create_index_again", &sql, &ml) { self.tabs[ti].indexes.push((iname, cols)); }
     }
 
     fn create_schema(&mut self, rep: &mut Report, name: &str) {
@@ -375,13 +390,13 @@ impl<'a> World<'a> {
 fn new_world<'a>(ctx: &Ctx, model: &'a mut Model, tag: &str, case: String) -> World<'a> {
     model.ask("reset");
     let db = Dbh::create(ctx, &format!("c21-{tag}"));
-    World { db, model, tabs: vec![], dropped: vec![], schemas: vec![], case, last_op: "none".into(), last_ddl: "none".into(), reopened_since_ddl: false, schema_ever: false, total_inserts: 0, blame_add_column: false, blame_pk_rename: false, blame_recreated: false, dead: false, fresh_col: 0, fresh_idx: 0 }
+    World { last_dropped_index: None, db, model, tabs: vec![], dropped: vec![], schemas: vec![], case, last_op: "none".into(), last_ddl: "none".into(), reopened_since_ddl: false, schema_ever: false, total_inserts: 0, blame_add_column: false, blame_pk_rename: false, blame_recreated: false, dead: false, fresh_col: 0, fresh_idx: 0 }
 }
 
 const FOCUS: &[(&str, &str)] = &[
     ("add_column", "plain"), ("add_column", "default"), ("drop_column", "last"), ("drop_column", "middle"), ("drop_column", "pk"), ("drop_column", "indexed"),
     ("rename_column", "plain"), ("rename_column", "indexed"), ("rename_column", "pk"), ("truncate", "plain"), ("truncate", "indexed"), ("drop_table", "plain"), ("drop_table", "recreate"),
-    ("create_index", "plain"), ("create_index", "unique"), ("drop_index", "plain"), ("schema", "create-drop"), ("schema", "table-in-schema"),
+    ("create_index", "plain"), ("create_index", "unique"), ("drop_index", "plain"), ("drop_index", "recreate"), ("schema", "create-drop"), ("schema", "table-in-schema"),
 ];
 
 /// systematic mini-history: table with 4 rows, the operation, DML that exercises the new schema,
@@ -431,7 +446,7 @@ fn run_focus(ctx: &Ctx, model: &mut Model, rep: &mut Report, op: &str, variant: 
             if v == "recreate" { w.create_table(rep, &mut rng, "t", true, 2); }
         }
         ("create_index", v) => { w.create_index(rep, &mut rng, 0, v == "unique"); }
-        ("drop_index", _) => { w.drop_index(rep, 0); }
+        ("drop_index", v) => { w.drop_index(rep, 0); if v == "recreate" { chk!(w); w.create_index_again(rep); } }
         _ => {}
     }
     chk!(w);
@@ -480,7 +495,8 @@ fn run_history(ctx: &Ctx, model: &mut Model, rep: &mut Report, seed: u64, steps:
         else if r < 78 { w.truncate(rep, ti); }
         else if r < 81 { w.drop_table(rep, ti); }
         else if r < 86 { let u = rng.chance(1, 4); w.create_index(rep, &mut rng, ti, u); }
-        else if r < 89 { w.drop_index(rep, ti); }
+        else if r < 88 { w.drop_index(rep, ti); }
+        else if r < 89 { w.create_index_again(rep); }
         else if r < 90 { if w.schemas.contains(&"sx".to_string()) { w.drop_schema(rep, "sx"); } }
         else { w.reopen(rep); continue; }
         w.verify(rep, false);
